@@ -722,3 +722,17 @@ package carddav
 //@   ensures E2: doCalls == old(doCalls) + 1 ==> (lastErr(c.ic) != nil ==> err == lastErr(c.ic)) && (lastErr(c.ic) == nil && lastStatus(c.ic) / 100 != 2 ==> err != nil && dynHTTP(err) && httpCode(err) == lastStatus(c.ic))
 //@   ensures E3: doCalls == old(doCalls) || doCalls == old(doCalls) + 1
 //@   ensures E4: err == nil ==> doCalls == old(doCalls) + 1 && lastErr(c.ic) == nil && lastStatus(c.ic) / 100 == 2 && nrMethod == "OPTIONS"
+
+//@ -- C10: the supported address data of an address book reaches the caller as decoded, element by element and in order;
+//@ -- SupportsAddressData is membership in that list (vCard 3.0 alone for an empty list, RFC 6352 section 6.2.2)
+//@ func carddav.decodeSupportedAddressData(supported) (l)
+//@   requires R1: supported != nil
+//@   allocates
+//@   ensures D1: len(l) == len(supported.Types) && (forall j int :: 0 <= j && j < len(l) ==> l[j].ContentType == supported.Types[j].ContentType && l[j].Version == supported.Types[j].Version)
+//@   loop 1 invariant I1: len(l) == len(supported.Types) && fresh(l) && (forall j int :: 0 <= j && j < #i ==> l[j].ContentType == supported.Types[j].ContentType && l[j].Version == supported.Types[j].Version)
+//@ func carddav.(*AddressBook).SupportsAddressData(ab, contentType, version) (r)
+//@   requires R1: ab != nil
+//@   ensures S1: len(ab.SupportedAddressData) == 0 ==> (r <==> contentType == "text/vcard" && version == "3.0")
+//@   ensures S2: len(ab.SupportedAddressData) > 0 ==> (r <==> (exists j int :: 0 <= j && j < len(ab.SupportedAddressData) && ab.SupportedAddressData[j].ContentType == contentType && ab.SupportedAddressData[j].Version == version))
+//@   witness S2: j : #i1 - 1
+//@   loop 1 invariant I1: len(ab.SupportedAddressData) > 0 && (forall j int :: 0 <= j && j < #i ==> !(ab.SupportedAddressData[j].ContentType == contentType && ab.SupportedAddressData[j].Version == version))
